@@ -1717,6 +1717,13 @@ class multislater(wave_function_auto):
     ) -> jax.Array:
         return jnp.linalg.det(green[jnp.ix_(cre, des)])
 
+    @partial(jit, static_argnums=(0, 3))
+    def _rows_by_orbital(self, green: jax.Array, ref_det: jax.Array, nocc: int):
+        """The excitation lists address the rows of the half Green's function by orbital
+        index, its rows follow the occupied orbitals of the reference: one row per orbital."""
+        occ = jnp.nonzero(ref_det, size=nocc)[0]
+        return jnp.zeros((self.norb, self.norb), dtype=green.dtype).at[occ].set(green)
+
     @partial(jit, static_argnums=0)
     def _calc_green_restricted(self, walker: jax.Array, wave_data: dict) -> jax.Array:
         ref_det = wave_data["ref_det"][0]
@@ -1738,6 +1745,7 @@ class multislater(wave_function_auto):
             wave_data["ref_det"],
         )
         green = self._calc_green_restricted(walker, wave_data)
+        green = self._rows_by_orbital(green, ref_det[0], self.nelec[0])
 
         # overlap with the reference determinant
         overlap_0 = (
@@ -1802,6 +1810,10 @@ class multislater(wave_function_auto):
             wave_data["ref_det"],
         )
         green = self._calc_green(walker_up, walker_dn, wave_data)
+        green = [
+            self._rows_by_orbital(green[0], ref_det[0], self.nelec[0]),
+            self._rows_by_orbital(green[1], ref_det[1], self.nelec[1]),
+        ]
 
         # overlap with the reference determinant
         overlap_0 = jnp.linalg.det(
